@@ -1431,6 +1431,27 @@ def run(ctx, res):
     R.finish()
     walls["model batch (%d calls)" % len(R.B.items)] = round(_time.time() - t0, 2)
     res.extra["section_wall_s"] = walls
+    # zoned DATE-TIME values (their zones are C11's subject; here: the DATE-TIME text is the value's own wall clock also when
+    # an equal instant in another zone was encoded before, alone, in a list and in a period; decoding with the zone gives it back)
+    import zoneinfo
+    from icalendar.prop import vDatetime as _vDT, vDDDTypes as _vDDD, vDDDLists as _vDL, vPeriod as _vP
+    for inst in (datetime(2021, 3, 2, 10, 15, 0, tzinfo=UTC), datetime(2021, 7, 1, 23, 30, 0, tzinfo=UTC),
+                 datetime(2024, 1, 10, 12, 0, 0, tzinfo=UTC), datetime(1999, 12, 31, 23, 59, 59, tzinfo=UTC)):
+        for zname in ("Europe/Berlin", "America/New_York", "Asia/Tokyo", "Europe/London", "Asia/Kolkata", "UTC",
+                      "Australia/Lord_Howe", "Africa/Abidjan"):
+            v = inst.astimezone(zoneinfo.ZoneInfo(zname))
+            want = v.strftime("%Y%m%dT%H%M%S") + ("Z" if zname == "UTC" else "")
+            later = v + timedelta(hours=2)
+            want2 = later.strftime("%Y%m%dT%H%M%S") + ("Z" if zname == "UTC" else "")
+            got = {"vDatetime": c_text(_vDT(v).to_ical()), "vDDDTypes": c_text(_vDDD(v).to_ical()),
+                   "vDDDLists": c_text(_vDL([v, later]).to_ical()), "vPeriod": c_text(_vP((v, later)).to_ical())}
+            exp = {"vDatetime": want, "vDDDTypes": want, "vDDDLists": want + "," + want2, "vPeriod": want + "/" + want2}
+            res.evaluations += 1
+            res.count(("zoned", inst.isoformat(), zname), nontrivial=zname != "UTC")
+            back = _vDT.from_ical(want, None if zname == "UTC" else zname)
+            if got != exp or back.replace(tzinfo=None) != v.replace(tzinfo=None) or back.utcoffset() != v.utcoffset():
+                res.fail("C03 DATE-TIME: a zoned value is not written as its own wall clock (or not read back with its zone)",
+                         [inst.isoformat(), zname], observed=[got, str(back)], expected=[exp, str(v)])
     from icalendar.prop import vDuration, vDatetime, vUTCOffset
     res.sample({"type": "DURATION", "value_s": -93784, "text": c_text(vDuration(timedelta(seconds=-93784)).to_ical()),
                 "back": c_td(vDuration.from_ical(c_text(vDuration(timedelta(seconds=-93784)).to_ical())))})
